@@ -303,14 +303,15 @@ ArgN(nm) == [k |-> "arg", arg |-> nm, annotation |-> None]
 AWD(nm, d) == [k |-> "arg_with_default", def |-> ArgN(nm), default |-> d]
 NoArgs == [k |-> "arguments", posonlyargs |-> <<>>, args |-> <<>>, vararg |-> None, kwonlyargs |-> <<>>, kwarg |-> None]
 \* signature shapes: which kinds are present; defaults take expressions from the stack
-SigShapes == {<<>>, <<"a">>, <<"p", "/", "a">>, <<"a", "d">>, <<"*v">>, <<"a", "*", "k">>, <<"*v", "kd", "**w">>, <<"**w">>, <<"p", "/", "a", "d", "*v", "k", "kd", "**w">>}
-NDefaults(sh) == Cardinality({j \in 1..Len(sh) : sh[j] \in {"d", "kd"}})
+SigShapes == {<<>>, <<"a">>, <<"p", "/", "a">>, <<"a", "d">>, <<"*v">>, <<"a", "*", "k">>, <<"*v", "kd", "**w">>, <<"**w">>, <<"p", "/", "a", "d", "*v", "k", "kd", "**w">>, <<"pd", "/", "d">>}
+NDefaults(sh) == Cardinality({j \in 1..Len(sh) : sh[j] \in {"d", "kd", "pd"}})
 BuildArgs(sh, ds) ==
    LET RECURSIVE G(_, _, _)
        G(j, di, acc) ==
           IF j > Len(sh) THEN acc
           ELSE LET x == sh[j] IN
                CASE x = "p" -> G(j + 1, di, [acc EXCEPT !.posonlyargs = Append(@, AWD("p", None))])
+                 [] x = "pd" -> G(j + 1, di + 1, [acc EXCEPT !.posonlyargs = Append(@, AWD("q", ds[di]))])
                  [] x = "/" -> G(j + 1, di, acc)
                  [] x = "a" -> G(j + 1, di, [acc EXCEPT !.args = Append(@, AWD("x", None))])
                  [] x = "d" -> G(j + 1, di + 1, [acc EXCEPT !.args = Append(@, AWD("y", ds[di]))])
@@ -355,6 +356,7 @@ BadSig(sh, rule) == [sh |-> sh, rule |-> rule]
 BadSigs == {BadSig(<<"a", "a2">>, "param.duplicate"), BadSig(<<"a", "*", "k2">>, "param.duplicate"), BadSig(<<"a", "*x">>, "param.duplicate"), BadSig(<<"a", "**x">>, "param.duplicate"),
             BadSig(<<"px", "/", "a">>, "param.duplicate"), BadSig(<<"a", "*v", "k2", "**w">>, "param.duplicate"),
             BadSig(<<"d", "a">>, "param.default_order"), BadSig(<<"p", "/", "d", "a">>, "param.default_order"),
+            BadSig(<<"pd", "/", "a">>, "param.default_order"), BadSig(<<"pd", "p", "/">>, "param.default_order"), BadSig(<<"pd", "/", "a", "d">>, "param.default_order"),
             BadSig(<<"a", "*!">>, "param.bare_star"), BadSig(<<"*!">>, "param.bare_star"), BadSig(<<"*!", "**w">>, "param.bare_star")}
 MkLambdaBad == On("Mut") /\ On("Lambda") /\ \E b \in BadSigs : LET nd == NDefaults(b.sh) IN
               /\ Can(1 + nd) /\ CatsAre(1 + nd, {"expr"})
